@@ -315,7 +315,7 @@ pub fn property() -> Property {
                 name: "frames",
                 rule: "refresh rate from {1,3,7,20,30,60,255} or 1..=255; standalone term_like_with_hz, first bar of a MultiProgress, or two bars of a MultiProgress alternating; 30-400 (thorough 2000) ordinary requests (tick/set_message/set_length/inc/set_position/dec with monotone payloads) at gaps from {0, ns, <1 ms, k*interval +-1 ns for k<25, interval/2, ms, s, hours}; window law via the running minimum of k*1e9 - R*t_k, staleness law per request, every painted frame compared with the latest state of all drawn bars; non-trivial = skipped and painted draws and a gap at an interval multiple",
                 strategy: rate_strategy,
-                cases: |t| t.pick(300, 12_000),
+                cases: |t| t.pick(300, 48_000),
                 run: run_rate,
                 signature: no_signature,
                 essential: &["skipped_draw", "burst_exhausted", "gap_at_interval_multiple", "refill_after_long_gap", "multi_progress_target"],
@@ -330,7 +330,7 @@ pub fn property() -> Property {
                     let call = prop_oneof![6 => Just(Call::Inc), 1 => Just(Call::SetPosition), 1 => Just(Call::Dec)];
                     proptest::collection::vec((gap_strategy(), call), 30..n).prop_map(|gaps| PosCase { gaps }).boxed()
                 },
-                cases: |t| t.pick(200, 8_000),
+                cases: |t| t.pick(200, 32_000),
                 run: run_pos,
                 signature: no_signature,
                 essential: &["update_throttled", "burst_exhausted"],
